@@ -270,7 +270,7 @@ fn gen_log_world(seed: u64, idx: usize) -> LogWorldScenario {
 }
 
 /// One two-command world in six gets command names that differ only in one character outside [A-Za-z0-9._-]
-/// (`lint:fix` / `lint_fix`, `gen proto` / `gen+proto`, ...): whatever a tool does with such names on disk, the two
+/// (`lint:fix` / `lint_fix`, `gen%proto` / `gen+proto`, ...): whatever a tool does with such names on disk, the two
 /// commands' logs must not end up in one place. Own generator, applied to the finished scenario, so that existing
 /// seeds keep their worlds otherwise.
 fn odd_command_names(sc: &mut LogWorldScenario, seed: u64, idx: usize) {
@@ -279,7 +279,7 @@ fn odd_command_names(sc: &mut LogWorldScenario, seed: u64, idx: usize) {
     if !(has("build") && has("test")) || !rng.chance(1, 6) {
         return;
     }
-    let (a, b) = *rng.pick(&[("lint:fix", "lint_fix"), ("gen proto", "gen+proto"), ("a@b", "a#b"), ("x=1", "x~1"), ("pre,post", "pre;post")]);
+    let (a, b) = *rng.pick(&[("lint:fix", "lint_fix"), ("gen%proto", "gen+proto"), ("a@b", "a#b"), ("x=1", "x~1"), ("pre,post", "pre;post")]);
     let (a, b) = if rng.chance(1, 2) { (a, b) } else { (b, a) };
     let ren = |c: &mut String| {
         if c == "build" {
@@ -634,7 +634,7 @@ impl Property for C08 {
         outv
     }
     fn rule(&self) -> String {
-        format!("E-A (vclock): batches of {} seeded scripts, 1-8 tasks x (stdout, stderr), up to 8 (one in ten: 32) chunks per stream with virtual arrival times drawn from a mixture centred on the 500 ms tick lattice (k*500 + {{-250,-1,0,+1,+250}}), chunk classes: line, two lines, partial line, rest of line, bare newline, CRLF, binary/invalid UTF-8, 100 KiB line, 2000 one-byte lines, 9 KB partial; EOF at / just before / just after a tick; tokio select! order seeded per script; one script in eight uses the relaxed cancellation configuration (reported separately as *_under_cancel). Oracle: every stored file exists and decodes to exactly the script's bytes for that stream. E-B (world): real run with 1-16 concurrent scripted children, flush knob in {{5,20,100,500}} ms, one in twenty with a real 650 ms pause in mid-line against the un-knobbed tick; stored files decoded independently + log show blocks under three filter combinations. Round 11 (E-B worlds): one two-command world in six has command names that differ only in one character outside [A-Za-z0-9._-] (lint:fix / lint_fix, gen proto / gen+proto ...). Non-trivial (E-A) = the script has a data/tick tie, a pause that straddles a tick in mid-line, or the SUT-side probe tick_with_partial_line fired; distinct = hash of the per-stream sequence of (chunk class, phase relative to the tick, tick index). Non-trivial (E-B) = >= 2 non-empty logs", BATCH)
+        format!("E-A (vclock): batches of {} seeded scripts, 1-8 tasks x (stdout, stderr), up to 8 (one in ten: 32) chunks per stream with virtual arrival times drawn from a mixture centred on the 500 ms tick lattice (k*500 + {{-250,-1,0,+1,+250}}), chunk classes: line, two lines, partial line, rest of line, bare newline, CRLF, binary/invalid UTF-8, 100 KiB line, 2000 one-byte lines, 9 KB partial; EOF at / just before / just after a tick; tokio select! order seeded per script; one script in eight uses the relaxed cancellation configuration (reported separately as *_under_cancel). Oracle: every stored file exists and decodes to exactly the script's bytes for that stream. E-B (world): real run with 1-16 concurrent scripted children, flush knob in {{5,20,100,500}} ms, one in twenty with a real 650 ms pause in mid-line against the un-knobbed tick; stored files decoded independently + log show blocks under three filter combinations. Round 11 (E-B worlds): one two-command world in six has command names that differ only in one character outside [A-Za-z0-9._-] (lint:fix / lint_fix, gen%proto / gen+proto ...). Non-trivial (E-A) = the script has a data/tick tie, a pause that straddles a tick in mid-line, or the SUT-side probe tick_with_partial_line fired; distinct = hash of the per-stream sequence of (chunk class, phase relative to the tick, tick index). Non-trivial (E-B) = >= 2 non-empty logs", BATCH)
     }
     fn components(&self) -> Value {
         json!({
